@@ -51,17 +51,19 @@ import (
 	"github.com/gopcua/opcua/server"
 	"github.com/gopcua/opcua/ua"
 	"github.com/gopcua/opcua/uacp"
+	"github.com/gopcua/opcua/uapolicy"
 	"github.com/gopcua/opcua/uasc"
 	"pgregory.net/rapid"
 
 	"verif/pkg/ev"
 	"verif/pkg/gen"
+	"verif/pkg/keys"
 	"verif/pkg/stack"
 )
 
 func TestMain(m *testing.M) { ev.Main(m) }
 
-var rec = ev.For("C35", "request type x token kind {null, unknown, closed, not-activated, foreign, near-miss of the live session's token (same number in another namespace / as string / as opaque, number +-1, one bit flipped)} x value seed x aimed/unaimed; non-trivial = the service is one this server implements (with a valid session it would act); distinct by hash of (type, token, seed, aimed)")
+var rec = ev.For("C35", "request type x token kind {null, unknown, closed, not-activated, foreign, activation-refused (session on a Basic256Sha256/Sign channel whose only ActivateSession carried a client signature that does not verify), near-miss of the live session's token (same number in another namespace / as string / as opaque, number +-1, one bit flipped)} x value seed x aimed/unaimed; non-trivial = the service is one this server implements (with a valid session it would act); distinct by hash of (type, token, seed, aimed)")
 
 // ---------------------------------------------------------------------------
 // domain
@@ -101,7 +103,7 @@ var sessionErrors = map[ua.StatusCode]bool{
 	ua.StatusBadSecurityChecksFailed: true,
 }
 
-var tokenKinds = []string{"null", "unknown", "closed", "not-activated", "foreign", "near-miss"}
+var tokenKinds = []string{"null", "unknown", "closed", "not-activated", "foreign", "near-miss", "activation-refused"}
 
 type caseT struct {
 	Type  string `json:"type"`
@@ -151,6 +153,73 @@ type rawChan struct {
 	conn  *uacp.Conn
 	sc    *uasc.SecureChannel
 	errCh chan error
+	cert  []byte // client certificate of a secured channel (sent in CreateSession)
+}
+
+// openRawSigned opens a Basic256Sha256 / Sign channel: only on a secured channel
+// can the server refuse an ActivateSession (the client signature is checked).
+func openRawSigned(url string) (*rawChan, error) {
+	ctx, cancel := context.WithTimeout(context.Background(), 15*time.Second)
+	defer cancel()
+	conn, err := uacp.Dial(ctx, url)
+	if err != nil {
+		return nil, err
+	}
+	errCh := make(chan error, 64)
+	go func() {
+		for range errCh {
+		}
+	}()
+	ck, sk := keys.Get("a", 2048), keys.Get("b", 2048)
+	cfg := &uasc.Config{SecurityPolicyURI: ua.SecurityPolicyURIBasic256Sha256, SecurityMode: ua.MessageSecurityModeSign, Lifetime: 3600_000, RequestTimeout: reqTimeout,
+		Certificate: ck.Cert, LocalKey: ck.Key, RemoteCertificate: sk.Cert, Thumbprint: uapolicy.Thumbprint(sk.Cert)}
+	sc, err := uasc.NewSecureChannel(url, conn, cfg, errCh)
+	if err != nil {
+		conn.Close()
+		return nil, err
+	}
+	if err := sc.Open(ctx); err != nil {
+		conn.Close()
+		return nil, err
+	}
+	return &rawChan{url: url, conn: conn, sc: sc, errCh: errCh, cert: ck.Cert}, nil
+}
+
+// refusedActivation creates a session on the signed channel and sends an
+// ActivateSession whose client signature does not verify. It returns the
+// session's token and whether the server refused the activation.
+func (r *rawChan) refusedActivation(policyID string, seed int) (*ua.NodeID, bool, error) {
+	cs, err := r.createSession()
+	if err != nil {
+		return nil, false, err
+	}
+	sig, alg, err := r.sc.NewSessionSignature(cs.ServerCertificate, cs.ServerNonce)
+	if err != nil {
+		return nil, false, err
+	}
+	switch seed % 4 {
+	case 0:
+		sig[seed%len(sig)] ^= 1 << uint(seed%8)
+	case 1: // signed over another nonce
+		other := append([]byte{}, cs.ServerNonce...)
+		other[0] ^= 0xff
+		if sig, alg, err = r.sc.NewSessionSignature(cs.ServerCertificate, other); err != nil {
+			return nil, false, err
+		}
+	case 2:
+		sig = []byte{}
+	default:
+		for i := range sig {
+			sig[i] = byte(seed + i*7)
+		}
+	}
+	a := r.send(&ua.ActivateSessionRequest{ClientSignature: &ua.SignatureData{Algorithm: alg, Signature: sig},
+		UserIdentityToken: ua.NewExtensionObject(&ua.AnonymousIdentityToken{PolicyID: policyID}), UserTokenSignature: &ua.SignatureData{}}, cs.AuthenticationToken)
+	if a.timeout {
+		return nil, false, fmt.Errorf("ActivateSession: no answer")
+	}
+	_, accepted := a.resp.(*ua.ActivateSessionResponse)
+	return cs.AuthenticationToken, !(accepted && a.err == nil), nil
 }
 
 const reqTimeout = 5 * time.Second
@@ -219,6 +288,7 @@ func (r *rawChan) createSession() (*ua.CreateSessionResponse, error) {
 		ClientDescription: &ua.ApplicationDescription{ApplicationURI: "urn:verif:c35", ProductURI: "urn:verif", ApplicationName: &ua.LocalizedText{EncodingMask: ua.LocalizedTextText, Text: "c35"},
 			ApplicationType: ua.ApplicationTypeClient},
 		EndpointURL: r.url, SessionName: fmt.Sprintf("c35-%d", sessionNo), ClientNonce: nonce, RequestedSessionTimeout: 600_000,
+		ClientCertificate: r.cert,
 	}
 	a := r.send(req, nil)
 	res, ok := a.resp.(*ua.CreateSessionResponse)
@@ -277,6 +347,7 @@ type fixtureT struct {
 	a, b      *stack.Server
 	policyA   string
 	raw       *rawChan // channel the negative requests travel on
+	signed    *rawChan // Basic256Sha256/Sign channel (token kind activation-refused), opened on demand
 	legitCh   *rawChan // another channel: owns the legitimate session
 	legit     *ua.NodeID
 	foreign   *ua.NodeID
@@ -304,7 +375,7 @@ func getFixture() (*fixtureT, error) {
 func newFixture() (*fixtureT, error) {
 	f := &fixtureT{issued: map[string]bool{}}
 	var err error
-	if f.a, err = stack.StartServer(stack.ServerOpts{}); err != nil {
+	if f.a, err = stack.StartServer(stack.ServerOpts{Sec: []stack.Sec{{Policy: "None", Mode: ua.MessageSecurityModeNone}, {Policy: "Basic256Sha256", Mode: ua.MessageSecurityModeSign}}}); err != nil {
 		return nil, err
 	}
 	if f.b, err = stack.StartServer(stack.ServerOpts{}); err != nil {
@@ -598,6 +669,7 @@ func run(c caseT, test string) (v verdict) {
 	// token
 	var token *ua.NodeID
 	var cleanup *ua.NodeID
+	sendCh, cleanupCh := f.raw, f.raw // the channel the request travels on
 	switch c.Token {
 	case "null":
 		token = nil
@@ -611,6 +683,31 @@ func run(c caseT, test string) (v verdict) {
 			v.infra = "no near-miss token available"
 			return
 		}
+	case "activation-refused":
+		if f.signed == nil {
+			if f.signed, err = openRawSigned(f.a.URL); err != nil {
+				v.infra = "signed channel: " + err.Error()
+				f.signed = nil
+				return
+			}
+		}
+		tok, refused, err := f.signed.refusedActivation(f.policyA, c.Seed)
+		if err != nil {
+			f.signed.close()
+			f.signed = nil
+			v.infra = "refused activation: " + err.Error()
+			return
+		}
+		if !refused {
+			// the server accepted a client signature that does not verify: the
+			// session IS activated then; not what this token kind is about
+			cls("activation-with-bad-signature-was-accepted(case-not-judged)")
+			_ = f.signed.send(&ua.CloseSessionRequest{}, tok)
+			return
+		}
+		token, sendCh = tok, f.signed
+		f.issued[token.String()] = true
+		cleanupCh, cleanup = f.signed, tok
 	case "closed", "not-activated":
 		cs, err := f.raw.createSession()
 		if err != nil {
@@ -646,8 +743,11 @@ func run(c caseT, test string) (v verdict) {
 		return
 	}
 	defer func() {
-		if cleanup != nil && f.raw != nil {
-			_ = f.raw.send(&ua.CloseSessionRequest{}, cleanup) // keep the session table small; result irrelevant
+		if cleanupCh == f.raw || cleanupCh == nil {
+			cleanupCh = f.raw // f.raw may have been reopened meanwhile
+		}
+		if cleanup != nil && cleanupCh != nil {
+			_ = cleanupCh.send(&ua.CloseSessionRequest{}, cleanup) // keep the session table small; result irrelevant
 		}
 	}()
 	req, err := f.genRequest(ti, c.Seed)
@@ -666,9 +766,20 @@ func run(c caseT, test string) (v verdict) {
 	rec.Journal(test, c)
 	var a answer
 	for try := 0; try < 3; try++ {
-		a = f.raw.send(req, token)
+		if sendCh != f.signed {
+			sendCh = f.raw // may have been reopened
+		}
+		a = sendCh.send(req, token)
 		if !a.timeout {
 			break
+		}
+		if sendCh == f.signed {
+			// the refused session lives on this channel: no fresh channel to confirm on
+			rec.JournalDone(test)
+			f.signed.close()
+			f.signed = nil
+			v.infra = "no answer on the signed channel"
+			return
 		}
 		// no answer: confirm on a fresh channel before calling it a violation (DESIGN 3.4)
 		cls("no-answer-within-timeout")
@@ -689,7 +800,7 @@ func run(c caseT, test string) (v verdict) {
 		delayed = after
 	}
 	strict := implemented[c.Type]
-	notAsserted := c.Type == "CloseSessionRequest" && c.Token == "not-activated"
+	notAsserted := c.Type == "CloseSessionRequest" && (c.Token == "not-activated" || c.Token == "activation-refused")
 	fam := family[c.Type]
 	if fam == "" {
 		fam = "other"
